@@ -57,6 +57,14 @@ type fakeDB struct {
 	nf        error           // the configured not-found error of the store
 	panicOnce bool            // the next query panics (a bug in the caller's query closure), once
 	ctx       context.Context // context of the call in progress (nil: API without context); a dead one makes the database refuse
+	shape     string          // the shape in which the queries of the call in progress report an absent row (nfshape_test.go)
+	lastNF    error           // the error the last query of the current op reported an absent row with (nil: none did)
+}
+
+// absent is what a query closure returns for a row that does not exist.
+func (d *fakeDB) absent(what string) error {
+	d.lastNF = shapeNF(d.shape, d.nf, what)
+	return d.lastNF
 }
 
 // errLoaderPanic is the value the query closure panics with when asked to.
@@ -120,7 +128,7 @@ func (d *fakeDB) queryPrimary(key string, slot int, val any) error {
 		return errDB
 	}
 	if slot < 0 || d.rows[slot] == nil {
-		return d.nf
+		return d.absent(key)
 	}
 	*val.(*row) = *d.rows[slot]
 	return nil
@@ -138,7 +146,7 @@ func (d *fakeDB) queryIndex(key, name string, val any) (any, error) {
 	}
 	r := d.byName(name)
 	if r == nil {
-		return nil, d.nf
+		return nil, d.absent(key)
 	}
 	*val.(*row) = *r
 	return pkOf(d, r), nil
